@@ -53,6 +53,7 @@ AGGS = [
     {"name": "Random"},
     {"name": "GradDrop"},
     {"name": "GradDrop", "leak": "rand", "wseed": 2},
+    {"name": "GradDrop", "leak": "rand", "wseed": 5, "leak_dtype": "other"},
     {"name": "IMTLG"},
     {"name": "AlignedMTL"},
     {"name": "AlignedMTL", "pref": "distinct"},
